@@ -10,6 +10,7 @@ narrowing (`cInt` = saturate to long, keep the low 32 bits).  Text-to-address co
 `ipParse`; hypotheses about it are stated where used.
 -/
 import SquidModel.Ftp.QuadLemmas
+import SquidModel.Ftp.EpsvLemmas
 import SquidModel.Ftp.ListingNameLemmas
 
 namespace SquidModel.C40
@@ -415,6 +416,112 @@ theorem eprt_accepts_strict (fl : EprtFlags) (hfl : fl = EprtFlags.legacy ∨ fl
       eprtSanityMinPort]
     omega
 
+/-! ## EPSV reply: the port extraction of Ftp::Client::handleEpsvReply
+
+(The address of an EPSV reply is the control connection's peer; only the port is taken from the string.)
+Variants: pinned code = `%hu` into `unsigned short`, four conversions suffice, `0 == port`; fixed
+(notes/fixes/C40-epsv-port-range.diff) = `%ld` into `long`, five conversions required, `port <= 0 || port > 65535`. -/
+
+/-- Holds for every reply and either variant: a yielded port is in 1..65535 (≥ 1024 under ftp_sanitycheck). -/
+theorem epsv_port_in_range {fixed sanity : Bool} {reply : Bytes} {p : Nat}
+    (h : parseEpsvCore fixed sanity reply = .ok p ∨ parseEpsvCore fixed sanity reply = .indeterminate p) :
+    1 ≤ p ∧ p ≤ 65535 ∧ (sanity = true → 1024 ≤ p) := by
+  obtain ⟨d, r, v, r2, _, _, hc, _, _⟩ := parseEpsv_inv h
+  obtain ⟨h0, hp, hs, hf⟩ := epsvPortCheck_inv hc
+  cases fixed with
+  | true =>
+    obtain ⟨a, b⟩ := hf rfl
+    refine ⟨by omega, by omega, ?_⟩
+    intro hs1; have := hs hs1; omega
+  | false =>
+    simp only [epsvConv, Bool.false_eq_true, ↓reduceIte] at h0 hp hs
+    have := huConv_lt v
+    refine ⟨by omega, by omega, ?_⟩
+    intro hs1; have := hs hs1; omega
+
+/- FULL STATEMENT (false of the pinned code, see the counterexamples; true of the fixed variant):
+   parseEpsv sanity reply = .ok p → the reply contains "(<d><d><d>N<d>" with N as written in 1..65535 and p = N.
+   Proved for either variant with the excluded region as hypothesis: the port as written is in 1..65535. -/
+theorem epsv_port_only_if_in_range_partial {fixed sanity : Bool} {reply : Bytes} {p : Nat}
+    (h : parseEpsvCore fixed sanity reply = .ok p) :
+    ∃ d r v rest, reply.dropWhile (· != 40) = 40 :: d :: d :: d :: r ∧ lexInt r = some (v, d :: rest) ∧
+      (1 ≤ v → v ≤ 65535 → (p : Int) = v ∧ (sanity = true → 1024 ≤ p)) := by
+  obtain ⟨d, r, v, r2, hd, hl, hc, hok, _⟩ := parseEpsv_inv (Or.inl h)
+  obtain ⟨rest, hr⟩ := hok h
+  subst hr
+  refine ⟨d, r, v, rest, hd, hl, ?_⟩
+  intro h1 h2
+  obtain ⟨_, hp, hs, _⟩ := epsvPortCheck_inv hc
+  have hv : epsvConv fixed v = v := by
+    unfold epsvConv
+    cases fixed with
+    | true => simp only [↓reduceIte]; exact clampLong_of_fits (by unfold FitsInt; omega)
+    | false => simp only [Bool.false_eq_true, ↓reduceIte]; exact huConv_of_small (by omega) h2
+  rw [hv] at hp hs
+  refine ⟨by omega, ?_⟩
+  intro hs1; have := hs hs1; omega
+
+/-- FULL STATEMENT for the fixed variant: the port as written is in 1..65535 and is the yielded port; the reply is never
+accepted on four conversions. -/
+theorem fixed_epsv_port_only_if_in_range {sanity : Bool} {reply : Bytes} {p : Nat}
+    (h : parseEpsvCore true sanity reply = .ok p ∨ parseEpsvCore true sanity reply = .indeterminate p) :
+    parseEpsvCore true sanity reply = .ok p ∧
+    ∃ d r v rest, reply.dropWhile (· != 40) = 40 :: d :: d :: d :: r ∧ lexInt r = some (v, d :: rest) ∧
+      1 ≤ v ∧ v ≤ 65535 ∧ (p : Int) = v ∧ (sanity = true → 1024 ≤ p) := by
+  obtain ⟨d, r, v, r2, hd, hl, hc, hok, hind⟩ := parseEpsv_inv h
+  have hk : parseEpsvCore true sanity reply = .ok p := by
+    rcases h with h | h
+    · exact h
+    · exact absurd (hind h).2 (by decide)
+  obtain ⟨rest, hr⟩ := hok hk
+  subst hr
+  obtain ⟨_, hp, hs, hf⟩ := epsvPortCheck_inv hc
+  obtain ⟨a, b⟩ := hf rfl
+  simp only [epsvConv, ↓reduceIte] at hp hs a b
+  have e := clampLong_inner (v := v) (by omega) (by omega)
+  rw [e] at hp hs a b
+  refine ⟨hk, d, r, v, rest, hd, hl, a, b, by omega, ?_⟩
+  intro hs1; have := hs hs1; omega
+
+/-- COUNTEREXAMPLES, pinned code: "(|||70000|)" yields port 4464, "(|||-1|)" yields port 65535, and "(|||5000" (no closing
+delimiter: `h4` is compared uninitialised) is accepted or not depending on a stale stack byte; the fixed variant rejects all
+three. -/
+theorem legacy_epsv_port_70000_counterexample : parseEpsvCore false false [50, 50, 57, 32, 69, 110, 116, 101, 114, 105, 110, 103, 32, 69, 120, 116, 101, 110, 100, 101, 100, 32, 80, 97, 115, 115, 105, 118, 101, 32, 77, 111, 100, 101, 32, 40, 124, 124, 124, 55, 48, 48, 48, 48, 124, 41] = .ok 4464 := by decide +kernel
+theorem legacy_epsv_port_negative_counterexample : parseEpsvCore false true [50, 50, 57, 32, 111, 107, 32, 40, 124, 124, 124, 45, 49, 124, 41] = .ok 65535 := by decide +kernel
+theorem legacy_epsv_uninitialised_delimiter : parseEpsvCore false false [50, 50, 57, 32, 40, 124, 124, 124, 53, 48, 48, 48] = .indeterminate 5000 := by decide +kernel
+theorem fixed_epsv_witnesses_rejected :
+    parseEpsvCore true false [50, 50, 57, 32, 69, 110, 116, 101, 114, 105, 110, 103, 32, 69, 120, 116, 101, 110, 100, 101, 100, 32, 80, 97, 115, 115, 105, 118, 101, 32, 77, 111, 100, 101, 32, 40, 124, 124, 124, 55, 48, 48, 48, 48, 124, 41] = .reject ∧ parseEpsvCore true true [50, 50, 57, 32, 111, 107, 32, 40, 124, 124, 124, 45, 49, 124, 41] = .reject ∧
+    parseEpsvCore true false [50, 50, 57, 32, 40, 124, 124, 124, 53, 48, 48, 48] = .reject := by decide +kernel
+
+/-- Strictly written replies are accepted with their port by either variant: text without '(' , then "(dddNd" with a
+non-digit delimiter byte and N a digit string with value 1..65535 (≥ 1024 under ftp_sanitycheck). -/
+theorem epsv_accepts_strict (fixed sanity : Bool) (pre pd tail : Bytes) (d : UInt8)
+    (hpre : ∀ c ∈ pre, c ≠ 40) (hd : isDigit d = false) (ipd : IsDec pd) (hp1 : 1 ≤ decNat pd) (hp2 : decNat pd ≤ 65535)
+    (hsan : sanity = true → 1024 ≤ decNat pd) :
+    parseEpsvCore fixed sanity (pre ++ 40 :: d :: d :: d :: (pd ++ d :: tail)) = .ok (decNat pd) := by
+  have nd : NoDigitAhead (d :: tail) := by
+    intro c r' h
+    simp only [List.cons.injEq] at h
+    rw [← h.1]; exact hd
+  have hl := lexInt_dec ipd (d :: tail) nd
+  have hdw := dropWhile_paren pre (d :: d :: d :: (pd ++ d :: tail)) hpre
+  have hconv : (if fixed = true then clampLong (decNat pd : Int) else (huConv (decNat pd : Int) : Int)) = (decNat pd : Int) := by
+    cases fixed with
+    | true => simp only [↓reduceIte]; exact clampLong_of_fits (by unfold FitsInt; omega)
+    | false => simp only [Bool.false_eq_true, ↓reduceIte]; exact huConv_of_small (by omega) (by omega)
+  have hchk : epsvPortCheck fixed sanity (decNat pd : Int) = some (decNat pd) := by
+    unfold epsvPortCheck
+    have a : ¬ (fixed = true ∧ ((decNat pd : Int) ≤ 0 ∨ (decNat pd : Int) > 65535)) := by
+      intro ⟨_, hh⟩; omega
+    have b : ¬ ((decNat pd : Int) = 0) := by omega
+    have c : ¬ (sanity = true ∧ (decNat pd : Int) < eprtSanityMinPort) := by
+      intro ⟨hs, hlt⟩
+      have := hsan hs
+      simp only [eprtSanityMinPort] at hlt
+      omega
+    simp only [a, b, c, ↓reduceIte, Int.toNat_natCast]
+  simp only [parseEpsvCore, hdw, hl, hconv, hchk, bne_self_eq_false, Bool.or_self, Bool.false_eq_true, ↓reduceIte]
+
 /-! ## Directory listings: ftpListParseParts -/
 
 /-- No listing line of any content makes ftpListParseParts index `tokens[]` outside `[0, n_tokens)` or form a pointer
@@ -472,5 +579,8 @@ example : listParseParts false false [48, 52, 45, 48, 53, 45, 55, 48, 32, 32, 48
 example : listParseParts false false [43, 105, 56, 51, 56, 56, 54, 50, 49, 46, 50, 57, 54, 48, 57, 44, 109, 56, 50, 52, 50, 53, 53, 57, 48, 50, 44, 47, 44, 9, 116, 109, 112] =
     .parts { type := 100, size := 0, date := none, name := some [116, 109, 112], link := none } := by decide +kernel
 example : listParseParts false false [116, 111, 116, 97, 108, 32, 49, 50] = .null := by decide +kernel
+example : parseEpsvCore false true [50, 50, 57, 32, 69, 110, 116, 101, 114, 105, 110, 103, 32, 69, 120, 116, 101, 110, 100, 101, 100, 32, 80, 97, 115, 115, 105, 118, 101, 32, 77, 111, 100, 101, 32, 40, 124, 124, 124, 54, 52, 52, 54, 124, 41] = .ok 6446 := by decide +kernel
+example : parseEpsvCore true true [50, 50, 57, 32, 69, 110, 116, 101, 114, 105, 110, 103, 32, 69, 120, 116, 101, 110, 100, 101, 100, 32, 80, 97, 115, 115, 105, 118, 101, 32, 77, 111, 100, 101, 32, 40, 124, 124, 124, 54, 52, 52, 54, 124, 41] = .ok 6446 := by decide +kernel
+example : parseEpsvCore false true [50, 50, 57, 32, 40, 124, 124, 124, 49, 48, 50, 51, 124, 41] = .reject := by decide +kernel   -- port 1023 under sanitycheck
 
 end SquidModel.C40
